@@ -1101,6 +1101,9 @@ func (e *Engine) callKnown(fi *fnInfo, st *State, in *ssa.Call, callee *ssa.Func
 			idx, _ := strconv.Atoi(strings.TrimPrefix(s.errMsg, "\x00param:"))
 			s.errMsg = "?"
 			if idx < len(cc.Args) {
+				if av := e.eval(st, cc.Args[idx]); av.k == vStrSet && len(av.strs) == 1 {
+					s.errMsg = av.strs[0] // the message is a value the caller holds (tt, msg := l.consumeX(); l.fail(msg))
+				}
 				switch a := cc.Args[idx].(type) {
 				case *ssa.Const:
 					if a.Value != nil && a.Value.Kind() == constant.String {
